@@ -26,7 +26,7 @@ func TestMain(m *testing.M) {
 	stats.Property("C10")
 	stats.Assume(
 		"the real UpstreamClusterController is driven without informer goroutines: objects are written to the lister's store and the event is delivered through the verif hook, in API order (a single informer and a single queue worker deliver in order), with duplicate deliveries",
-		"the API-side invariant enforced by the admission plugin is kept by the generator: no two stored objects claim the same name (case-insensitively); only objects accepted by ValidateUpstreamCluster are used",
+		"only objects accepted by ValidateUpstreamCluster are used; objects may collide (admission checks names against an informer cache, so racing writes get through; the controller's conflict check is the second line of defence): a colliding object is expected to be refused as a whole, names it shares with no holder may resolve to it or to nobody",
 		"IP-shaped host names are excluded (the gateway treats them as control-plane traffic by design)",
 		"TLS selection is observed at library level: the tls.Config returned by WrapGetConfigForClient for a ClientHello with the given ServerName, and SNIVerifyOptions(host)",
 		"Go runtime, pgregory.net/rapid v1.3.0",
@@ -40,35 +40,73 @@ var clusterNames = []string{"alpha", "beta", "gamma"}
 var aliasPool = []string{"a.example.com", "A.Example.com", "B.Example.COM", "b.example.com", "shared.io", "x-alias", "beta", "Gamma", "ALPHA", "Beta"}
 
 type world struct {
-	box    *ctlbox.Box
-	stored map[string]*proxyv1alpha1.UpstreamCluster
-	mat    map[string]*pki.Material
+	box *ctlbox.Box
+	// api: the latest object per cluster name in the API (objects may collide: admission checks against an
+	// informer cache, the controller's own conflict check is the second line of defence)
+	api map[string]*proxyv1alpha1.UpstreamCluster
+	// applied: the object the gateway serves per cluster (the latest one that was not refused)
+	applied map[string]*proxyv1alpha1.UpstreamCluster
+	mat     map[string]*pki.Material
 }
 
-func (w *world) owner(host string) string {
+func namesOf(name string, c *proxyv1alpha1.UpstreamCluster) map[string]bool {
+	out := map[string]bool{strings.ToLower(name): true}
+	for _, sn := range c.Spec.SecureServing.ServerNames {
+		out[strings.ToLower(sn)] = true
+	}
+	return out
+}
+
+// holder returns the cluster the name belongs to (the applied objects), or "".
+func (w *world) holder(host string) string {
 	h := strings.ToLower(host)
-	for name, c := range w.stored {
-		if h == name {
+	for name, c := range w.applied {
+		if namesOf(name, c)[h] {
 			return name
-		}
-		for _, sn := range c.Spec.SecureServing.ServerNames {
-			if strings.ToLower(sn) == h {
-				return name
-			}
 		}
 	}
 	return ""
 }
 
+// expect returns the owner the model demands and the alternatives it tolerates: a name that only the refused
+// (latest) or only the served (older) version of a cluster lists may resolve to that cluster or to nobody.
+func (w *world) expect(host string) (string, map[string]bool) {
+	h := strings.ToLower(host)
+	may := map[string]bool{}
+	if n := w.holder(h); n != "" {
+		if a := w.api[n]; a != nil && a != w.applied[n] && !namesOf(n, a)[h] {
+			may[""] = true
+		}
+		return n, may
+	}
+	for n, a := range w.api {
+		if a != w.applied[n] && namesOf(n, a)[h] {
+			may[n] = true
+		}
+	}
+	return "", may
+}
+
+// conflicts: a name of the object is held by another cluster.
+func (w *world) conflicts(name string, obj *proxyv1alpha1.UpstreamCluster) bool {
+	for h := range namesOf(name, obj) {
+		if o := w.holder(h); o != "" && o != name {
+			return true
+		}
+	}
+	return false
+}
+
 func (w *world) claimedByOthers(name string) map[string]bool {
 	out := map[string]bool{}
-	for n, c := range w.stored {
-		if n == name {
-			continue
-		}
-		out[n] = true
-		for _, sn := range c.Spec.SecureServing.ServerNames {
-			out[strings.ToLower(sn)] = true
+	for _, m := range []map[string]*proxyv1alpha1.UpstreamCluster{w.api, w.applied} {
+		for n, c := range m {
+			if n == name {
+				continue
+			}
+			for h := range namesOf(n, c) {
+				out[h] = true
+			}
 		}
 	}
 	return out
@@ -93,13 +131,22 @@ func (w *world) check(t *rapid.T, trace string, sub *stats.Sub) {
 	hosts = append(hosts, "unknown.example.com")
 	getCfg := w.box.Controller.WrapGetConfigForClient(baseConfig)
 	for _, h := range hosts {
-		want := w.owner(h)
+		want, may := w.expect(h)
+		tolerated := false
 		for _, variant := range []string{h, strings.ToUpper(h), h + ":6443", strings.ToUpper(h) + ":443"} {
 			got := w.box.Owner(gatewaynet.HostWithoutPort(variant))
 			if got != want {
-				t.Fatalf("host %q resolves to cluster %q, the stored objects say %q\ntrace: %s", variant, got, want, trace)
+				if may[got] {
+					tolerated = true
+					continue
+				}
+				t.Fatalf("host %q resolves to cluster %q, the object history says %q\ntrace: %s", variant, got, want, trace)
 			}
 			sub.Class("lookup")
+		}
+		if tolerated {
+			sub.Class("lookup-tolerated-alternative")
+			continue
 		}
 		// TLS handshake view
 		for _, sni := range []string{h, strings.ToUpper(h)} {
@@ -110,7 +157,7 @@ func (w *world) check(t *rapid.T, trace string, sub *stats.Sub) {
 			wantCert := certOf(baseMat)
 			var wantCA *x509.Certificate
 			if want != "" {
-				ss := w.stored[want].Spec.SecureServing
+				ss := w.applied[want].Spec.SecureServing
 				for _, m := range pki.Pool(5) {
 					if len(ss.CertData) > 0 && bytes.Equal(ss.CertData, m.CertPEM) {
 						wantCert = certOf(m)
@@ -151,79 +198,106 @@ func (w *world) check(t *rapid.T, trace string, sub *stats.Sub) {
 }
 
 func TestPropNameOwnership(t *testing.T) {
-	sub := stats.NewSub("name-ownership-histories", "rapid state machine on the real controller: ops create/update a cluster (valid object; server names drawn from a pool with case variants, never claimed by another stored object), delete, duplicate delivery; after every event, for every name of the pool x {as is, upper case, with port}: Manager.Get(HostWithoutPort(h)), the tls.Config for a ClientHello with that SNI (certificate, client-CA subjects) and SNIVerifyOptions must be those of the model's owner or nobody's; non-trivial = the history moves an alias between clusters, reuses a name after a delete, or a name is owned under a different case than looked up; distinct by FNV-64 of the op trace")
+	sub := stats.NewSub("name-ownership-histories", "rapid state machine on the real controller: ops create/update a cluster (valid object; server names drawn from a pool with case variants; two in three not claimed by another object, one in three free to collide with names another cluster holds, including an object NAMED like another cluster's server name), delete, duplicate delivery (also of the delete event of a vanished or refused object); model: a delivery whose latest object claims a name held by another cluster is refused and changes nothing, any other delivery makes the latest object the served one; after every event, for every name of the pool x {as is, upper case, with port}: Manager.Get(HostWithoutPort(h)), the tls.Config for a ClientHello with that SNI (certificate, client-CA subjects) and SNIVerifyOptions must be those of the model's owner or nobody's (a name listed only by the refused or only by the still-served version of a cluster may resolve to it or to nobody); non-trivial = the history moves an alias between clusters, reuses a name after a delete, has a name owned under a different case than looked up, or has a refused object; distinct by FNV-64 of the op trace")
 	mats := pki.Pool(5)
 	stats.Check(t, stats.N(1500, 8000), func(t *rapid.T) {
-		w := &world{box: ctlbox.New(), stored: map[string]*proxyv1alpha1.UpstreamCluster{}}
+		w := &world{box: ctlbox.New(), api: map[string]*proxyv1alpha1.UpstreamCluster{}, applied: map[string]*proxyv1alpha1.UpstreamCluster{}}
 		defer w.box.Close()
 		trace := ""
-		everOwned := map[string]string{} // name -> last owner, to detect moves / reuse
+		everOwned := map[string]string{}                       // name -> last owner, to detect moves / reuse
+		last := map[string]*proxyv1alpha1.UpstreamCluster{} // last object ever stored per name (to redeliver delete events)
 		nt := false
 		sub.Eval()
-		t.Repeat(map[string]func(*rapid.T){
-			"upsert": func(t *rapid.T) {
-				name := rapid.SampledFrom(clusterNames).Draw(t, "cluster")
-				taken := w.claimedByOthers(name)
-				if taken[name] {
-					t.Skip("the cluster name is claimed as an alias by another stored object (admission would refuse)")
+		// deliver hands the event of cluster `name` to the controller and moves the model
+		deliver := func(t *rapid.T, name string) {
+			obj := w.api[name]
+			if obj == nil {
+				wasRefused := w.applied[name] == nil
+				if _, err := w.box.Deliver(last[name]); err != nil {
+					t.Fatalf("delete event of %s failed: %v\ntrace: %s", name, err, trace)
 				}
-				var free []string
-				for _, a := range aliasPool {
-					if !taken[strings.ToLower(a)] {
-						free = append(free, a) // includes other spellings of the cluster's own name
-					}
-				}
-				obj := gen.GenValidCluster(t, "obj", name, gen.ObjOpts{Endpoints: []string{"http://127.0.0.1:1", "http://127.0.0.1:2"}, ServerNames: free, PKI: mats, SchemaNames: []string{"s1"}, NoGlobal: true})
-				if errs := validation.ValidateUpstreamCluster(obj); len(errs) > 0 {
-					t.Fatalf("harness: generated object is not valid: %v", errs)
-				}
-				res, err := w.box.Apply(obj)
-				trace += fmt.Sprintf("upsert(%s,names=%q);", name, obj.Spec.SecureServing.ServerNames)
-				if err != nil || res.RequeueAfter > 0 {
-					t.Fatalf("sync of %s failed (err=%v requeue=%v) although no other stored object claims its names\ntrace: %s", name, err, res.RequeueAfter, trace)
-				}
-				w.stored[name] = obj
-				for _, sn := range append([]string{name}, obj.Spec.SecureServing.ServerNames...) {
-					l := strings.ToLower(sn)
-					if prev, ok := everOwned[l]; ok && prev != name {
-						nt = true
-						sub.Class("alias-moved-or-reused")
-					}
-					if sn != l {
-						nt = true
-					}
-					everOwned[l] = name
-				}
-			},
-			"delete": func(t *rapid.T) {
-				name := rapid.SampledFrom(clusterNames).Draw(t, "cluster")
-				obj := w.stored[name]
-				if obj == nil {
-					t.Skip("not stored")
-				}
-				delete(w.stored, name)
-				_, err := w.box.Delete(obj)
-				trace += fmt.Sprintf("delete(%s);", name)
-				if err != nil {
-					t.Fatalf("delete of %s failed: %v\ntrace: %s", name, err, trace)
-				}
+				delete(w.applied, name)
 				for k, v := range everOwned {
 					if v == name {
 						everOwned[k] = "<deleted:" + name + ">"
 					}
 				}
+				if wasRefused {
+					sub.Class("delete-event-of-a-cluster-that-is-not-served")
+				}
+				return
+			}
+			conflict := w.conflicts(name, obj)
+			res, err := w.box.Deliver(obj)
+			if conflict {
+				nt = true
+				sub.Class("refused-for-a-name-held-by-another-cluster")
+				if err == nil && res.RequeueAfter == 0 {
+					sub.Class("refused-object-reported-as-synced")
+				}
+				return
+			}
+			if err != nil || res.RequeueAfter > 0 {
+				t.Fatalf("sync of %s failed (err=%v requeue=%v) although no other cluster holds one of its names\ntrace: %s", name, err, res.RequeueAfter, trace)
+			}
+			w.applied[name] = obj
+			for _, sn := range append([]string{name}, obj.Spec.SecureServing.ServerNames...) {
+				l := strings.ToLower(sn)
+				if prev, ok := everOwned[l]; ok && prev != name {
+					nt = true
+					sub.Class("alias-moved-or-reused")
+				}
+				if sn != l {
+					nt = true
+				}
+				everOwned[l] = name
+			}
+		}
+		t.Repeat(map[string]func(*rapid.T){
+			"upsert": func(t *rapid.T) {
+				name := rapid.SampledFrom(clusterNames).Draw(t, "cluster")
+				collide := rapid.IntRange(0, 2).Draw(t, "mayCollide") == 0
+				pool := aliasPool
+				if !collide {
+					taken := w.claimedByOthers(name)
+					if taken[name] {
+						t.Skip("the cluster name is claimed as an alias by another object")
+					}
+					pool = nil
+					for _, a := range aliasPool {
+						if !taken[strings.ToLower(a)] {
+							pool = append(pool, a) // includes other spellings of the cluster's own name
+						}
+					}
+				}
+				obj := gen.GenValidCluster(t, "obj", name, gen.ObjOpts{Endpoints: []string{"http://127.0.0.1:1", "http://127.0.0.1:2"}, ServerNames: pool, PKI: mats, SchemaNames: []string{"s1"}, NoGlobal: true})
+				if errs := validation.ValidateUpstreamCluster(obj); len(errs) > 0 {
+					t.Fatalf("harness: generated object is not valid: %v", errs)
+				}
+				w.box.Store(obj)
+				w.api[name], last[name] = obj, obj
+				trace += fmt.Sprintf("upsert(%s,names=%q);", name, obj.Spec.SecureServing.ServerNames)
+				deliver(t, name)
+			},
+			"delete": func(t *rapid.T) {
+				name := rapid.SampledFrom(clusterNames).Draw(t, "cluster")
+				obj := w.api[name]
+				if obj == nil {
+					t.Skip("not stored")
+				}
+				delete(w.api, name)
+				w.box.Remove(obj)
+				trace += fmt.Sprintf("delete(%s);", name)
+				deliver(t, name)
 				sub.Class("delete")
 			},
 			"redeliver": func(t *rapid.T) {
 				name := rapid.SampledFrom(clusterNames).Draw(t, "cluster")
-				obj := w.stored[name]
-				if obj == nil {
-					t.Skip("not stored")
-				}
-				if _, err := w.box.Deliver(obj); err != nil {
-					t.Fatalf("duplicate delivery failed: %v", err)
+				if last[name] == nil {
+					t.Skip("never stored")
 				}
 				trace += fmt.Sprintf("redeliver(%s);", name)
+				deliver(t, name)
 			},
 			"": func(t *rapid.T) { w.check(t, trace, sub) },
 		})
